@@ -28,17 +28,38 @@ int main(int argc, char** argv) {
             if (nz == 0) { w[0] = 1; s = 1; }
             for (uint32_t b = 0; b < nb; b++) fill[b] = (float)(w[b] / s);
         }
-        std::ostringstream ds; ds << "n=" << n << " nb=" << nb << " L=" << L << " Lp=" << Lp << " flavour=" << flavour;
+        // width of the generated start distribution (InitialDistZoom): from barely resolved to wider than the grid
+        double zoom = (c % 2) ? 1.0 : r.logu(std::max(0.3, 1.5 * std::max(L, Lp) / (n - 1)), 3.0);
+        std::ostringstream ds; ds << "n=" << n << " nb=" << nb << " L=" << L << " Lp=" << Lp << " flavour=" << flavour << " zoom=" << zoom;
         M.begin_case(c, ds.str());
         vh::set_grid(n, nb);
         std::shared_ptr<PhaseSpace> ps;
         try {
             ps = std::make_shared<PhaseSpace>((meshaxis_t)(qc - L / 2), (meshaxis_t)(qc + L / 2), 1e-3,
                                               (meshaxis_t)(pc - Lp / 2), (meshaxis_t)(pc + Lp / 2), 1e5,
-                                              nullptr, 1e-9, 1e-3, fill, 1.0, nullptr);
+                                              nullptr, 1e-9, 1e-3, fill, zoom, nullptr);
         } catch (std::invalid_argument&) { M.cases--; continue; }   // filling did not round to 1: not a case
         const double d0 = ps->getDelta(0), d1 = ps->getDelta(1);
         const size_t nn = (size_t)n * n;
+        // the generated start distribution is itself charge-normalised: shares as set, whatever its width and the grid's extent
+        {
+            auto pop0 = ps->getBunchPopulation();
+            double tot0 = 0;
+            for (uint32_t b = 0; b < nb; b++) {
+                tot0 += pop0[b];
+                double tol = 2.0 * n * EPS * std::max((double)fill[b], 1e-30);
+                M.ev("constructed_shares_checked");
+                if (fill[b] == 0 ? pop0[b] != 0 : !M.within("norm.constructed_share_err_over_tol", std::fabs((double)pop0[b] - (double)fill[b]) / tol, 1.0)) {
+                    vh::J d; d.i("n", n).i("nb", nb).i("bunch", b).n("zoom", zoom).n("extent_q", L).n("extent_p", Lp).n("share_set", fill[b]).n("share_measured", pop0[b]).n("tol", tol);
+                    M.violation("C09:norm:constructed", "a bunch of the generated start distribution does not integrate to its share of the filling pattern", d.str());
+                    break;
+                }
+            }
+            if (!M.within("norm.constructed_total_err", std::max(std::fabs(tot0 - 1.0), std::fabs((double)ps->getIntegral() - 1.0)), 4.0 * n * EPS)) {
+                vh::J d; d.i("n", n).i("nb", nb).n("zoom", zoom).n("total", tot0).n("integral", ps->getIntegral());
+                M.violation("C09:norm:constructed_total", "total charge of the generated start distribution is not one", d.str());
+            }
+        }
         std::vector<G> gs(nb);
         float* data = ps->getData();
         for (uint32_t b = 0; b < nb; b++) {
